@@ -1,29 +1,36 @@
 /-
   C19 — Values that do not fit the binary format are rejected, never wrapped.
 
-  Model: FontcModel/Casts.lean (`fieldPipeline : Field → Rat → Profile → Outcome`, every narrowing with its real
-  Rust semantics, both build profiles).  Helper lemmas: FontcProofs/Casts*.lean.
+  Model: FontcModel/Casts.lean
+    `fieldPipeline    : Field → Rat → Profile → Outcome`   the CURRENT code (after the fixes d8817db glyf-outline,
+                                                            944e88e advance-maxp, f8fa190 kern-anchor),
+    `fieldPipelineOld : Field → Rat → Profile → Outcome`   the code before them (fontc 61b7940), kept for history.
+  Helper lemmas: FontcProofs/Casts*.lean.
 
-  What is proved (all source values `v : Rat`, both profiles, no bounds):
-    * `inrange_exact`                 inside the explicit decidable `Representable f v` every field carries exactly
-                                      the ideal (format-rounded) value, in both profiles;
-    * `outcome_profile_independent`   debug and release agree whenever no unchecked fixed-width add/sub overflows;
-                                      `profile_agreement_iff` says this is exact, `profile_sensitive_fields` lists the
-                                      four fields that can differ;
-    * `boundary_<field>`              for every field: the exact largest / smallest representable source value and what
-                                      happens just beyond it (clamp / wrap / panic / error / decomposition);
+  What is proved about the current code (all source values `v : Rat`, both profiles, no bounds):
+    * `rejects_or_exact`  (HEADLINE)   on the 16 closed fields (`closed_fields`) the build fails, or the emitted value is
+                                       exactly the ideal (format-rounded) one — every value, both profiles, no overflow
+                                       hypothesis; `out_of_range_rejected`: outside `Representable` the build fails;
+    * `inrange_exact`                  inside `Representable` every one of the 22 fields carries exactly the ideal value;
+    * `outcome_profile_independent`, `profile_agreement_iff`, `profile_sensitive_fields`
+                                       the profiles agree except where the one remaining unchecked subtraction
+                                       (top side bearing) overflows;
+    * `boundary_<field>`               exact boundary of every field and what happens beyond it;
     * `clamp_is_violation`, `emitted_out_of_range_differs`
-                                      whenever a font is emitted for a non-representable value, the value a reader
-                                      decodes differs from the source's (one exception, spelled out);
-    * the property itself (`FullStatement`) is FALSE of the code as it is: `full_statement_counterexample`
-      (outline x = 40000 ↦ 32767, the confirmed defect F7) and `profiles_disagree_counterexample`
-      (two points 40000 apart: debug build fails, release build emits a wrapped delta);
-      `rejects_or_exact_partial` is the property under the explicit hypothesis `Representable`;
-      `safe_fields` lists the fields on which the property holds unconditionally,
-      `unsafe_fields_witnesses` gives a violating value for every other field.
+                                       a font emitted for a non-representable value carries a different value, and that
+                                       can only happen on an open field;
+    * the property at full strength (`FullStatement`) is still FALSE, and `full_statement_fails_only_on_open_fields`
+      says exactly where: the 6 open fields `.metricI16`, `.metricU16` (fontinfo numbers, saturating `ot_round()`),
+      `.compositeBbox` (saturating), `.rsbExtent` (explicit clamp of hhea/vhea minimum second side bearing and maximum
+      extent), `.tsb` (unchecked i16 subtraction: debug panics, release wraps — the only profile disagreement left),
+      `.comp2x2` (saturation of [2−2⁻¹⁵, 2] to 0x7fff, at most 2⁻¹⁴ off: `boundary_comp2x2`);
+      `open_fields_witnesses` gives a violating value for each.
+      (Builds with ≥ 65535 glyphs fail in both profiles in write-fonts' post table: a rejection, not modelled.)
+  History (section 7): `old_full_statement_counterexample` (F7: x = 40000 ↦ 32767), `old_profiles_disagree_counterexample`
+  (F8), `old_unsafe_fields_witnesses`; `fix_preserves_inrange`: the fixes changed nothing for representable values.
 -/
 import FontcModel.Casts
-import FontcProofs.CastsStages
+import FontcProofs.CastsFixed
 
 namespace Fontc.C19
 open Fontc Fontc.Casts
@@ -43,21 +50,45 @@ theorem ideal_is_rounding (f : Field) (v : Rat) (h : isI16Round f = true ∨ isU
     ideal f v = (otRound v : Int) ∧ ratAbs (ideal f v - v) ≤ 1/2 := by
   have e : ideal f v = (otRound v : Int) := by
     rcases h with h | h
-    · exact (i16Round_pipeline f h v .debug).2.1
-    · exact (u16Round_pipeline f h v .debug).2.1
+    · exact (i16Round_pipeline_old f h v .debug).2.1
+    · exact (u16Round_pipeline_old f h v .debug).2.1
   exact ⟨e, by rw [e]; exact otRound_abs_le v⟩
 
 example : ideal .kernValue (5/2) = 3 := by decide +kernel
 
-/-! ## 2. The two build profiles -/
+/-! ## 2. The property on the closed fields (headline) -/
 
-/-- The only fields whose pipeline contains an unchecked fixed-width `+` / `-`. -/
-theorem profile_sensitive_fields (f : Field) :
-    profileSensitive f = true ↔ f ∈ [Field.pointDelta, .tsb, .endPt, .compositeTotal] := by
+/-- The 16 fields on which the property holds unconditionally: the 13 covered by the fixes and the 3 that were
+    already guarded by a checked conversion or an assert. -/
+theorem closed_fields (f : Field) :
+    isOpen f = false ↔
+      f ∈ [Field.outlineCoord, .pointDelta, .compOffset, .advance, .lsb, .kernValue, .anchorCoord, .valueDelta, .gvarDelta,
+           .hvarDelta, .countU16, .endPt, .compositeTotal, .glyphCount, .longMetricCount, .numContours] := by
+  cases f <;> simp [isOpen]
+
+/-- HEADLINE. On every closed field, for every source value and both build profiles: the build fails, or the value
+    a reader decodes is exactly the ideal one. -/
+theorem rejects_or_exact (f : Field) (hf : isOpen f = false) (v : Rat) (p : Profile) : RejectsOrExact f v p :=
+  Casts.rejects_or_exact f hf v p
+
+/-- … and a value that is not representable always makes the build fail there. -/
+theorem out_of_range_rejected (f : Field) (hf : isOpen f = false) (v : Rat) (p : Profile) (h : ¬ Representable f v) :
+    (fieldPipeline f v p).fails = true :=
+  closed_out_of_range_fails f hf v p h
+
+example : isOpen .outlineCoord = false ∧ ¬ Representable .outlineCoord 40000 ∧
+    fieldPipeline .outlineCoord 40000 .release = .err := by decide +kernel
+example : fieldPipeline .kernValue 32768 .debug = .err ∧ fieldPipeline .pointDelta 40000 .release = .err ∧
+    fieldPipeline .compositeTotal 80000 .release = .err ∧ fieldPipeline .endPt 65536 .release = .err := by decide +kernel
+
+/-! ## 3. The two build profiles -/
+
+/-- The only field whose pipeline still contains an unchecked fixed-width subtraction. -/
+theorem profile_sensitive_fields (f : Field) : profileSensitive f = true ↔ f = .tsb := by
   cases f <;> simp [profileSensitive]
 
-/-- Debug and release agree on the outcome (Ok/fail AND the value) whenever the field has no unchecked
-    arithmetic, or that arithmetic does not overflow on this value. -/
+/-- Debug and release agree on the outcome (Ok/fail AND the value) on every field but the top side bearing, and
+    there too unless the subtraction overflows. -/
 theorem outcome_profile_independent (f : Field) (v : Rat)
     (h : profileSensitive f = false ∨ ¬ Overflows f v) :
     fieldPipeline f v .debug = fieldPipeline f v .release := by
@@ -75,10 +106,10 @@ theorem representable_profile_independent (f : Field) (v : Rat) (h : Representab
     fieldPipeline f v .debug = fieldPipeline f v .release := by
   rw [inrange_exact f v .debug h, inrange_exact f v .release h]
 
-example : Overflows .pointDelta 40000 ∧ ¬ Overflows .pointDelta 32767 ∧ profileSensitive .kernValue = false := by
+example : Overflows .tsb 40000 ∧ ¬ Overflows .tsb 32767 ∧ ¬ Overflows .pointDelta 40000 ∧ profileSensitive .pointDelta = false := by
   decide +kernel
 
-/-! ## 3. A clamped or wrapped value is a different value -/
+/-! ## 4. A clamped or wrapped value is a different value -/
 
 /-- Saturating or wrapping a value outside the target range always changes it. -/
 theorem clamp_is_violation (v : Int) :
@@ -87,71 +118,81 @@ theorem clamp_is_violation (v : Int) :
 
 example : ¬ inI16 40000 ∧ satI16 40000 = 32767 ∧ ¬ inU16 (-1) ∧ satU16 (-1) = 0 ∧ wrapU16 65536 = 0 := by decide
 
-/-- Pipeline level: if a font is emitted for a value that is not `Representable`, a reader decodes a value
-    different from the ideal one — except a contour that ends exactly at point index 65535 in a release build. -/
+/-- Pipeline level: if the current code emits a font for a value that is not `Representable`, a reader decodes a
+    value different from the ideal one, and the field is one of the open ones. -/
 theorem emitted_out_of_range_differs (f : Field) (v : Rat) (p : Profile) (w : Rat)
-    (hr : ¬ Representable f v) (hw : fieldPipeline f v p = .ok w) :
-    w ≠ ideal f v ∨ (f = .endPt ∧ cnt v = 65536 ∧ p = .release) :=
+    (hr : ¬ Representable f v) (hw : fieldPipeline f v p = .ok w) : w ≠ ideal f v ∧ isOpen f = true :=
   Casts.emitted_out_of_range_differs f v p w hr hw
 
-example : ¬ Representable .outlineCoord 40000 ∧ fieldPipeline .outlineCoord 40000 .debug = .ok 32767 := by
-  decide +kernel
+example : ¬ Representable .metricI16 40000 ∧ fieldPipeline .metricI16 40000 .debug = .ok 32767 := by decide +kernel
 
-/-! ## 4. The boundary of every field -/
+/-! ## 5. The boundary of every field -/
 
-/-- The shape shared by the nine fields narrowed by `ot_round()` into an i16: representable exactly on
-    [−32768.5, 32767.5); the extreme integers pass; everything beyond is CLAMPED to ±limit and emitted. -/
-def I16Boundary (f : Field) : Prop := ∀ (v : Rat) (p : Profile),
+/-- Fields narrowed by `ot_round()` into an i16 behind a range check: representable exactly on [−32768.5, 32767.5);
+    the extreme integers pass; everything beyond is REJECTED (`Error::OutOfBounds` / `DeltaError::OutOfRange`). -/
+def CheckedI16Boundary (f : Field) : Prop := ∀ (v : Rat) (p : Profile),
+    (Representable f v ↔ (-32768 - 1/2 : Rat) ≤ v ∧ v < 32767 + 1/2) ∧
+    fieldPipeline f 32767 p = .ok 32767 ∧ fieldPipeline f (-32768) p = .ok (-32768) ∧
+    ((32767 + 1/2 : Rat) ≤ v ∨ v < (-32768 - 1/2 : Rat) → fieldPipeline f v p = .err)
+
+theorem boundary_outlineCoord : CheckedI16Boundary .outlineCoord := fun v p => boundary_checkedI16 _ rfl v p
+theorem boundary_compOffset : CheckedI16Boundary .compOffset := fun v p => boundary_checkedI16 _ rfl v p
+theorem boundary_lsb : CheckedI16Boundary .lsb := fun v p => boundary_checkedI16 _ rfl v p
+theorem boundary_kernValue : CheckedI16Boundary .kernValue := fun v p => boundary_checkedI16 _ rfl v p
+theorem boundary_anchorCoord : CheckedI16Boundary .anchorCoord := fun v p => boundary_checkedI16 _ rfl v p
+theorem boundary_valueDelta : CheckedI16Boundary .valueDelta := fun v p => boundary_checkedI16 _ rfl v p
+theorem boundary_gvarDelta : CheckedI16Boundary .gvarDelta := fun v p => boundary_checkedI16 _ rfl v p
+theorem boundary_hvarDelta : CheckedI16Boundary .hvarDelta := fun v p => boundary_checkedI16 _ rfl v p
+
+/-- Advance width / height: representable exactly on [−0.5, 65535.5); beyond: rejected. -/
+theorem boundary_advance (v : Rat) (p : Profile) :
+    (Representable .advance v ↔ (-1/2 : Rat) ≤ v ∧ v < 65535 + 1/2) ∧
+    fieldPipeline .advance 65535 p = .ok 65535 ∧ fieldPipeline .advance 0 p = .ok 0 ∧
+    ((65535 + 1/2 : Rat) ≤ v ∨ v < (-1/2 : Rat) → fieldPipeline .advance v p = .err) :=
+  boundary_checkedAdvance v p
+
+example : fieldPipeline .advance 70000 .release = .err ∧ fieldPipeline .advance (-100) .debug = .err := by decide +kernel
+
+/-- OPEN. Fields still narrowed by a bare saturating `ot_round()` into an i16 (fontinfo metrics, composite bounding
+    boxes): beyond [−32768.5, 32767.5) the value is CLAMPED and emitted. -/
+def I16ClampBoundary (f : Field) : Prop := ∀ (v : Rat) (p : Profile),
     (Representable f v ↔ (-32768 - 1/2 : Rat) ≤ v ∧ v < 32767 + 1/2) ∧
     fieldPipeline f 32767 p = .ok 32767 ∧ fieldPipeline f (-32768) p = .ok (-32768) ∧
     ((32767 + 1/2 : Rat) ≤ v → fieldPipeline f v p = .ok 32767) ∧
     (v < (-32768 - 1/2 : Rat) → fieldPipeline f v p = .ok (-32768))
 
-/-- Same for an unsigned 16-bit field: representable exactly on [−0.5, 65535.5); beyond: clamped to 65535 / 0. -/
-def U16Boundary (f : Field) : Prop := ∀ (v : Rat) (p : Profile),
-    (Representable f v ↔ (-1/2 : Rat) ≤ v ∧ v < 65535 + 1/2) ∧
-    fieldPipeline f 65535 p = .ok 65535 ∧ fieldPipeline f 0 p = .ok 0 ∧
-    ((65535 + 1/2 : Rat) ≤ v → fieldPipeline f v p = .ok 65535) ∧
-    (v < (-1/2 : Rat) → fieldPipeline f v p = .ok 0)
+theorem boundary_metricI16 : I16ClampBoundary .metricI16 := fun v p => boundary_i16Round_old .metricI16 rfl v p
+theorem boundary_compositeBbox : I16ClampBoundary .compositeBbox := fun v p => boundary_i16Round_old .compositeBbox rfl v p
 
-theorem boundary_outlineCoord : I16Boundary .outlineCoord := fun v p => boundary_i16Round _ rfl v p
-theorem boundary_compOffset : I16Boundary .compOffset := fun v p => boundary_i16Round _ rfl v p
-theorem boundary_lsb : I16Boundary .lsb := fun v p => boundary_i16Round _ rfl v p
-theorem boundary_kernValue : I16Boundary .kernValue := fun v p => boundary_i16Round _ rfl v p
-theorem boundary_anchorCoord : I16Boundary .anchorCoord := fun v p => boundary_i16Round _ rfl v p
-theorem boundary_valueDelta : I16Boundary .valueDelta := fun v p => boundary_i16Round _ rfl v p
-theorem boundary_gvarDelta : I16Boundary .gvarDelta := fun v p => boundary_i16Round _ rfl v p
-theorem boundary_hvarDelta : I16Boundary .hvarDelta := fun v p => boundary_i16Round _ rfl v p
-theorem boundary_metricI16 : I16Boundary .metricI16 := fun v p => boundary_i16Round _ rfl v p
-theorem boundary_advance : U16Boundary .advance := fun v p => boundary_u16Round _ rfl v p
-theorem boundary_metricU16 : U16Boundary .metricU16 := fun v p => boundary_u16Round _ rfl v p
+/-- OPEN. usWinAscent / usWinDescent: beyond [−0.5, 65535.5) clamped to 65535 / 0 and emitted. -/
+theorem boundary_metricU16 (v : Rat) (p : Profile) :
+    (Representable .metricU16 v ↔ (-1/2 : Rat) ≤ v ∧ v < 65535 + 1/2) ∧
+    fieldPipeline .metricU16 65535 p = .ok 65535 ∧ fieldPipeline .metricU16 0 p = .ok 0 ∧
+    ((65535 + 1/2 : Rat) ≤ v → fieldPipeline .metricU16 v p = .ok 65535) ∧
+    (v < (-1/2 : Rat) → fieldPipeline .metricU16 v p = .ok 0) :=
+  boundary_u16Round_old .metricU16 rfl v p
 
-example : fieldPipeline .advance 70000 .release = .ok 65535 ∧ fieldPipeline .advance (-100) .debug = .ok 0 := by
-  decide +kernel
+/-- Successive glyf point differences: representable iff in [−32768, 32767]; beyond: rejected in BOTH profiles. -/
+theorem boundary_pointDelta (v : Rat) (p : Profile) :
+    (Representable .pointDelta v ↔ inI16 v.floor) ∧
+    fieldPipeline .pointDelta 32767 p = .ok 32767 ∧ fieldPipeline .pointDelta (-32768) p = .ok (-32768) ∧
+    (¬ inI16 v.floor → fieldPipeline .pointDelta v p = .err) := by
+  refine ⟨Iff.rfl, by cases p <;> decide +kernel, by cases p <;> decide +kernel, fun h => ?_⟩
+  simp only [fieldPipeline, checkedI16_out h]
 
-/-- The fields that are an unchecked i16 subtraction (glyf point delta, top side bearing): representable iff
-    the difference is in [−32768, 32767]; beyond, the DEBUG build panics and the RELEASE build stores the
-    difference modulo 2¹⁶. -/
-def I16SubBoundary (f : Field) : Prop := ∀ (v : Rat),
-    (Representable f v ↔ inI16 v.floor) ∧
-    fieldPipeline f 32767 .debug = .ok 32767 ∧ fieldPipeline f (-32768) .release = .ok (-32768) ∧
-    fieldPipeline f 32768 .debug = .panic ∧ fieldPipeline f 32768 .release = .ok (-32768) ∧
-    (¬ inI16 v.floor → fieldPipeline f v .debug = .panic ∧
-                        fieldPipeline f v .release = .ok (wrapI16 v.floor : Int))
-
-theorem boundary_pointDelta : I16SubBoundary .pointDelta := by
-  intro v
+/-- OPEN. Top side bearing (vertical origin − yMax, an unchecked i16 subtraction): beyond i16 the DEBUG build panics and
+    the RELEASE build stores the difference modulo 2¹⁶. -/
+theorem boundary_tsb (v : Rat) :
+    (Representable .tsb v ↔ inI16 v.floor) ∧
+    fieldPipeline .tsb 32767 .debug = .ok 32767 ∧ fieldPipeline .tsb (-32768) .release = .ok (-32768) ∧
+    fieldPipeline .tsb 32768 .debug = .panic ∧ fieldPipeline .tsb 32768 .release = .ok (-32768) ∧
+    (¬ inI16 v.floor → fieldPipeline .tsb v .debug = .panic ∧
+                        fieldPipeline .tsb v .release = .ok (wrapI16 v.floor : Int)) := by
   refine ⟨Iff.rfl, by decide +kernel, by decide +kernel, by decide +kernel, by decide +kernel, ?_⟩
   intro h
   simp only [fieldPipeline, subI16, Int.sub_zero, if_neg h, and_self]
 
-theorem boundary_tsb : I16SubBoundary .tsb := by
-  intro v
-  refine ⟨Iff.rfl, by decide +kernel, by decide +kernel, by decide +kernel, by decide +kernel, ?_⟩
-  intro h
-  simp only [fieldPipeline, subI16, Int.sub_zero, if_neg h, and_self]
-
-/-- hhea.minRightSideBearing / xMaxExtent: an explicit clamp to i16 in both profiles. -/
+/-- OPEN. hhea/vhea minimum second side bearing and maximum extent: an explicit clamp to i16 in both profiles. -/
 theorem boundary_rsbExtent (v : Rat) (p : Profile) :
     fieldPipeline .rsbExtent v p = .ok (satI16 v.floor : Int) ∧
     (Representable .rsbExtent v ↔ inI16 v.floor) ∧
@@ -161,17 +202,17 @@ theorem boundary_rsbExtent (v : Rat) (p : Profile) :
   · intro h; simp only [fieldPipeline, satI16_above h]; rfl
   · intro h; simp only [fieldPipeline, satI16_below h]; rfl
 
-/-- Component 2×2 entries: representable exactly on [−2, 2 − 2⁻¹⁵); on [2 − 2⁻¹⁵, 2] the entry SATURATES to
-    0x7fff = 1.99993896484375 (at most 2⁻¹⁴ off); outside [−2, 2] the glyph is DECOMPOSED (shape-preserving
-    fallback). Whatever is stored is within one 2.14 step of the source value. -/
+/-- OPEN (deliberate). Component 2×2 entries: representable exactly on [−2, 2 − 2⁻¹⁵); on [2 − 2⁻¹⁵, 2] the entry
+    SATURATES to 0x7fff = 1.99993896484375 (at most 2⁻¹⁴ off, as fonttools does); outside [−2, 2] the glyph is
+    DECOMPOSED (shape-preserving fallback). Whatever is stored is within one 2.14 step of the source value. -/
 theorem boundary_comp2x2 (v : Rat) (p : Profile) :
     (Representable .comp2x2 v ↔ -2 ≤ v ∧ v < 2 - 1/32768) ∧
     fieldPipeline .comp2x2 (-2) p = .ok (-2) ∧
     (2 - 1/32768 ≤ v → v ≤ 2 → fieldPipeline .comp2x2 v p = .ok (32767 / 16384)) ∧
     (v < -2 ∨ 2 < v → fieldPipeline .comp2x2 v p = .fallback) ∧
     (∀ w, fieldPipeline .comp2x2 v p = .ok w → ratAbs (w - v) ≤ 1 / 16384) :=
-  ⟨representable_comp2x2_iff v, by cases p <;> decide +kernel, comp2x2_saturates v p,
-   comp2x2_fallback v p, fun w hw => comp2x2_within_ulp v p w hw⟩
+  ⟨representable_comp2x2_iff v, by cases p <;> decide +kernel, comp2x2_saturates_old v p,
+   comp2x2_fallback_old v p, fun w hw => comp2x2_within_ulp_old v p w hw⟩
 
 example : fieldPipeline .comp2x2 2 .debug = .ok (32767 / 16384) ∧ fieldPipeline .comp2x2 (5/2) .debug = .fallback := by
   decide +kernel
@@ -192,19 +233,19 @@ theorem boundary_longMetricCount (v : Rat) (p : Profile) :
   · simp only [fieldPipeline, if_pos h]
   · simp only [fieldPipeline, if_neg (by omega : ¬ cnt v ≤ 65535)]
 
-/-- maxp.maxPoints / maxContours / maxComponentElements: `usize as u16` — WRAPS modulo 65536, in both profiles. -/
+/-- maxp.maxPoints / maxContours / maxComponentElements: `u16::try_from` — beyond 65535 rejected. -/
 theorem boundary_countU16 (v : Rat) (p : Profile) :
-    fieldPipeline .countU16 v p = .ok (cnt v % 65536 : Int) ∧
-    fieldPipeline .countU16 65535 p = .ok 65535 ∧ fieldPipeline .countU16 65536 p = .ok 0 := by
-  refine ⟨rfl, ?_, ?_⟩ <;> cases p <;> decide +kernel
+    (cnt v ≤ 65535 → fieldPipeline .countU16 v p = .ok (cnt v : Int)) ∧
+    (65535 < cnt v → fieldPipeline .countU16 v p = .err) := by
+  constructor <;> intro h
+  · simp only [fieldPipeline, checkedU16_in ⟨cnt_nonneg v, h⟩]
+  · simp only [fieldPipeline, checkedU16_out (fun x : inU16 (cnt v) => by have := x.2; omega)]
 
-/-- endPtsOfContours: `(cur as u16 - 1)` — up to 65535 points exact; exactly 65536 points: debug panics, release
-    happens to store the right 65535; more: wraps in both profiles. -/
-theorem boundary_endPt :
-    (∀ p, fieldPipeline .endPt 65535 p = .ok 65534) ∧
-    fieldPipeline .endPt 65536 .debug = .panic ∧ fieldPipeline .endPt 65536 .release = .ok 65535 ∧
-    (∀ p, fieldPipeline .endPt 65537 p = .ok 0) := by
-  refine ⟨fun p => ?_, by decide +kernel, by decide +kernel, fun p => ?_⟩ <;> cases p <;> decide +kernel
+/-- endPtsOfContours: up to 65535 points exact; more are rejected (`check_encodable`) in both profiles. -/
+theorem boundary_endPt (p : Profile) :
+    fieldPipeline .endPt 65535 p = .ok 65534 ∧ fieldPipeline .endPt 65536 p = .err ∧
+    fieldPipeline .endPt 65537 p = .err := by
+  refine ⟨?_, ?_, ?_⟩ <;> cases p <;> decide +kernel
 
 /-- numberOfContours: `assert!(len < i16::MAX)` — 32766 is the largest accepted count; 32767 (which the format
     could hold) and beyond panic in both profiles. -/
@@ -215,21 +256,15 @@ theorem boundary_numContours (v : Rat) (p : Profile) :
   · simp only [fieldPipeline, if_pos h]
   · simp only [fieldPipeline, if_neg (by omega : ¬ cnt v ≤ 32766)]
 
-/-- maxp.maxCompositePoints / maxCompositeContours: unchecked u16 `+` — up to 65535 exact; beyond: the debug
-    build panics, the release build stores the total modulo 65536. -/
-theorem boundary_compositeTotal (v : Rat) :
-    (∀ p, cnt v ≤ 65535 → fieldPipeline .compositeTotal v p = .ok (cnt v : Int)) ∧
-    (65535 < cnt v → fieldPipeline .compositeTotal v .debug = .panic ∧
-                      fieldPipeline .compositeTotal v .release = .ok (cnt v % 65536 : Int)) := by
-  constructor
-  · intro p h; simp only [fieldPipeline, addU16, Int.zero_add, if_pos h]
-  · intro h
-    simp only [fieldPipeline, addU16, Int.zero_add, if_neg (by omega : ¬ cnt v ≤ 65535), wrapU16, and_self]
+/-- maxp.maxCompositePoints / maxCompositeContours: `checked_add` — up to 65535 exact; beyond rejected in both profiles. -/
+theorem boundary_compositeTotal (v : Rat) (p : Profile) :
+    (cnt v ≤ 65535 → fieldPipeline .compositeTotal v p = .ok (cnt v : Int)) ∧
+    (65535 < cnt v → fieldPipeline .compositeTotal v p = .err) := by
+  constructor <;> intro h
+  · simp only [fieldPipeline, checkedU16_in ⟨cnt_nonneg v, h⟩]
+  · simp only [fieldPipeline, checkedU16_out (fun x : inU16 (cnt v) => by have := x.2; omega)]
 
-example : fieldPipeline .compositeTotal 80000 .release = .ok 14464 ∧ fieldPipeline .compositeTotal 80000 .debug = .panic := by
-  decide +kernel
-
-/-! ## 5. The multi-value stages behind `pointDelta` and `compositeTotal` -/
+/-! ## 6. The multi-value stages behind `pointDelta` and `compositeTotal` -/
 
 /-- If every successive coordinate difference fits an i16, the stored deltas decode (running sum, as the spec and
     rasterisers do) to exactly the coordinates, in both profiles. -/
@@ -237,82 +272,129 @@ theorem glyf_deltas_roundtrip (p : Profile) (xs : List Int) (h : DiffsFit 0 xs) 
     ∃ ds, encodeDeltas p 0 xs = some ds ∧ decodeDeltas 0 ds = xs :=
   encode_decode_exact p 0 xs h
 
-/-- The debug build fails exactly when some successive difference does not fit; the release build never fails. -/
-theorem glyf_deltas_profiles (xs : List Int) :
-    (encodeDeltas .debug 0 xs = none ↔ ¬ DiffsFit 0 xs) ∧
-    (∃ ds, encodeDeltas .release 0 xs = some ds ∧ ds.length = xs.length) :=
-  ⟨encode_debug_none_iff 0 xs, encode_release_some 0 xs⟩
+/-- The encoder behind `check_encodable` (current code): rejected exactly when some difference does not fit, the
+    same in both profiles, and exact otherwise. -/
+theorem glyf_deltas_checked (p : Profile) (xs : List Int) :
+    (encodeDeltasChecked p xs = none ↔ ¬ DiffsFit 0 xs) ∧
+    (∀ ds, encodeDeltasChecked p xs = some ds → decodeDeltas 0 ds = xs) ∧
+    encodeDeltasChecked .debug xs = encodeDeltasChecked .release xs := by
+  by_cases h : DiffsFit 0 xs
+  · obtain ⟨ds, e1, e2⟩ := encode_decode_exact p 0 xs h
+    obtain ⟨dd, d1, d2⟩ := encode_decode_exact .debug 0 xs h
+    obtain ⟨dr, r1, r2⟩ := encode_decode_exact .release 0 xs h
+    refine ⟨?_, ?_, ?_⟩
+    · simp only [encodeDeltasChecked, if_pos h, e1]; simp [h]
+    · intro ds' hds; simp only [encodeDeltasChecked, if_pos h, e1] at hds; injection hds with hds; rw [← hds]; exact e2
+    · simp only [encodeDeltasChecked, if_pos h, d1, r1]
+      -- both decode to xs and have the same length: equal because decoding is injective
+      have : dd = dr := by
+        have inj : ∀ (acc : Int) (a b : List Int), decodeDeltas acc a = decodeDeltas acc b → a = b := by
+          intro acc a
+          induction a generalizing acc with
+          | nil => intro b hb; cases b with
+            | nil => rfl
+            | cons y ys => simp [decodeDeltas] at hb
+          | cons x xs ih => intro b hb; cases b with
+            | nil => simp [decodeDeltas] at hb
+            | cons y ys =>
+              simp only [decodeDeltas, List.cons.injEq] at hb
+              have hxy : x = y := by omega
+              subst hxy
+              rw [ih (acc + x) ys hb.2]
+        exact inj 0 dd dr (by rw [d2, r2])
+      rw [this]
+  · refine ⟨?_, ?_, ?_⟩
+    · simp only [encodeDeltasChecked, if_neg h]; simp [h]
+    · intro ds hds; simp only [encodeDeltasChecked, if_neg h] at hds; cases hds
+    · simp only [encodeDeltasChecked, if_neg h]
 
-example : DiffsFit 0 [100, -200, 32000] ∧ ¬ DiffsFit 0 [-20000, 20000] := by decide
+example : DiffsFit 0 [100, -200, 32000] ∧ ¬ DiffsFit 0 [-20000, 20000] ∧
+    encodeDeltasChecked .release [-20000, 20000] = none := by decide
 
-/-- Folding `acc + e` over a composite's component counts is the `.compositeTotal` pipeline on their sum. -/
-theorem composite_fold_is_pipeline (p : Profile) (xs : List Int) (h : ∀ x ∈ xs, 0 ≤ x) :
-    foldAddU16 p 0 xs = addU16 p 0 (listSum xs) :=
-  foldAddU16_eq p xs h
+/-- Folding `checked_add` over a composite's component counts rejects exactly when the true total exceeds 65535. -/
+theorem composite_fold_checked (xs : List Int) (h : ∀ x ∈ xs, 0 ≤ x) :
+    foldCheckedAdd 0 false xs = if 65535 < listSum xs then .err else .ok ((listSum xs : Int) : Rat) := by
+  have := foldCheckedAdd_eq 0 false xs (by omega) (by omega) h
+  simpa using this
 
-example : foldAddU16 .debug 0 [40000, 40000] = .panic ∧ foldAddU16 .release 0 [40000, 40000] = .ok 14464 := by
+example : foldCheckedAdd 0 false [40000, 40000] = .err ∧ foldCheckedAdd 0 false [30000, 30000] = .ok 60000 := by
   decide +kernel
 
-/-! ## 6. The property itself -/
+/-! ## 7. The property itself -/
 
 /-- C19 as stated: for every field, value and profile the build fails / falls back or emits the ideal value,
     and the two profiles agree on the outcome. -/
 def FullStatement : Prop :=
   (∀ f v p, RejectsOrExact f v p) ∧ (∀ f v, fieldPipeline f v .debug = fieldPipeline f v .release)
 
-/-- The property holds under the explicit range hypothesis. -/
+/-- The property holds under the explicit range hypothesis (all 22 fields). -/
 theorem rejects_or_exact_partial (f : Field) (v : Rat) (p : Profile) (h : Representable f v) :
     RejectsOrExact f v p ∧ fieldPipeline f v .debug = fieldPipeline f v .release := by
   refine ⟨?_, representable_profile_independent f v h⟩
   unfold RejectsOrExact
   rw [inrange_exact f v p h]
 
-/-- The confirmed defect F7: outline coordinate 40000 is emitted as 32767. -/
+/-- Still false: a fontinfo metric of 40000 (e.g. openTypeOS2TypoAscender) is emitted as 32767. -/
 theorem full_statement_counterexample : ¬ FullStatement := by
   intro ⟨h, _⟩
-  exact absurd (h .outlineCoord 40000 .debug) (by decide +kernel)
+  exact absurd (h .metricI16 40000 .debug) (by decide +kernel)
 
-/-- Two points 40000 apart (each representable): the debug build panics, the release build emits −25536. -/
-theorem profiles_disagree_counterexample :
-    fieldPipeline .pointDelta 40000 .debug = .panic ∧ fieldPipeline .pointDelta 40000 .release = .ok (-25536) ∧
-    ¬ (∀ f v, fieldPipeline f v .debug = fieldPipeline f v .release) := by
-  refine ⟨by decide +kernel, by decide +kernel, fun h => ?_⟩
-  exact absurd (h .pointDelta 40000) (by decide +kernel)
+/-- Exactly where: a differing value can only be emitted on one of the six open fields, and the profiles can only
+    disagree on the top side bearing. -/
+theorem full_statement_fails_only_on_open_fields (f : Field) (v : Rat) :
+    (∀ p, ¬ RejectsOrExact f v p → f ∈ [Field.tsb, .rsbExtent, .compositeBbox, .metricI16, .metricU16, .comp2x2]) ∧
+    (fieldPipeline f v .debug ≠ fieldPipeline f v .release → f = .tsb) := by
+  constructor
+  · intro p hn
+    have : isOpen f = true := by
+      cases ho : isOpen f
+      · exact absurd (rejects_or_exact f ho v p) hn
+      · rfl
+    cases f <;> simp_all [isOpen]
+  · intro hne
+    cases hs : profileSensitive f
+    · exact absurd (profile_independent f v hs) hne
+    · exact (profile_sensitive_fields f).1 hs
 
-/-- The fields on which the property holds for EVERY value: a checked conversion or an assert guards them. -/
-theorem safe_fields (f : Field) (hf : f ∈ [Field.glyphCount, .longMetricCount, .numContours]) (v : Rat) (p : Profile) :
-    RejectsOrExact f v p := by
-  simp only [List.mem_cons, List.mem_nil_iff, or_false] at hf
-  rcases hf with rfl | rfl | rfl
-  · by_cases h : cnt v ≤ 65535
-    · have e : fieldPipeline .glyphCount v p = .ok (cnt v : Int) := by simp only [fieldPipeline, if_pos h]
-      simp only [RejectsOrExact, e, ideal]
-    · have e : fieldPipeline .glyphCount v p = .panic := by simp only [fieldPipeline, if_neg h]
-      simp only [RejectsOrExact, e]
-  · by_cases h : cnt v ≤ 65535
-    · have e : fieldPipeline .longMetricCount v p = .ok (cnt v : Int) := by simp only [fieldPipeline, if_pos h]
-      simp only [RejectsOrExact, e, ideal]
-    · have e : fieldPipeline .longMetricCount v p = .err := by simp only [fieldPipeline, if_neg h]
-      simp only [RejectsOrExact, e]
-  · by_cases h : cnt v ≤ 32766
-    · have e : fieldPipeline .numContours v p = .ok (cnt v : Int) := by simp only [fieldPipeline, if_pos h]
-      simp only [RejectsOrExact, e, ideal]
-    · have e : fieldPipeline .numContours v p = .panic := by simp only [fieldPipeline, if_neg h]
-      simp only [RejectsOrExact, e]
+/-- Every open field really has a value on which a font with a different value is emitted. -/
+theorem open_fields_witnesses :
+    ¬ RejectsOrExact .metricI16 32768 .debug ∧ ¬ RejectsOrExact .metricU16 65536 .debug ∧
+    ¬ RejectsOrExact .compositeBbox 32900 .debug ∧ ¬ RejectsOrExact .rsbExtent (-36000) .debug ∧
+    ¬ RejectsOrExact .tsb 35000 .release ∧ ¬ RejectsOrExact .comp2x2 2 .debug ∧
+    fieldPipeline .tsb 35000 .debug = .panic ∧ fieldPipeline .tsb 35000 .release = .ok (-30536) := by
+  refine ⟨?_, ?_, ?_, ?_, ?_, ?_, ?_, ?_⟩ <;> decide +kernel
 
-/-- Every other field has a value on which a font with a different value is emitted (the map of where the
-    property is at risk). 2×2 entries differ by at most 2⁻¹⁴ (`boundary_comp2x2`); all the others by ≥ 1 unit. -/
-theorem unsafe_fields_witnesses :
-    ¬ RejectsOrExact .outlineCoord 40000 .debug ∧ ¬ RejectsOrExact .pointDelta 40000 .release ∧
-    ¬ RejectsOrExact .compOffset 40000 .debug ∧ ¬ RejectsOrExact .comp2x2 2 .debug ∧
-    ¬ RejectsOrExact .advance 65536 .debug ∧ ¬ RejectsOrExact .advance (-1) .debug ∧
-    ¬ RejectsOrExact .lsb 40000 .debug ∧ ¬ RejectsOrExact .tsb 40000 .release ∧
-    ¬ RejectsOrExact .rsbExtent 65435 .debug ∧ ¬ RejectsOrExact .kernValue 32768 .debug ∧
-    ¬ RejectsOrExact .anchorCoord (-32769) .debug ∧ ¬ RejectsOrExact .valueDelta 60000 .debug ∧
-    ¬ RejectsOrExact .gvarDelta 60000 .debug ∧ ¬ RejectsOrExact .hvarDelta 40000 .debug ∧
-    ¬ RejectsOrExact .metricI16 40000 .debug ∧ ¬ RejectsOrExact .metricU16 70000 .debug ∧
-    ¬ RejectsOrExact .countU16 65536 .debug ∧ ¬ RejectsOrExact .endPt 65537 .debug ∧
-    ¬ RejectsOrExact .compositeTotal 80000 .release := by
-  refine ⟨?_, ?_, ?_, ?_, ?_, ?_, ?_, ?_, ?_, ?_, ?_, ?_, ?_, ?_, ?_, ?_, ?_, ?_, ?_⟩ <;> decide +kernel
+/-! ## 8. History: the code before the fixes (`fieldPipelineOld`, fontc 61b7940) -/
+
+/-- The fixes changed nothing for representable values. -/
+theorem fix_preserves_inrange (f : Field) (v : Rat) (p : Profile) (h : Representable f v) :
+    fieldPipeline f v p = fieldPipelineOld f v p :=
+  Casts.fix_preserves_inrange f v p h
+
+/-- The confirmed defect F7 (fixed by d8817db): outline coordinate 40000 was emitted as 32767. -/
+theorem old_full_statement_counterexample :
+    ¬ RejectsOrExactOld .outlineCoord 40000 .debug ∧ fieldPipelineOld .outlineCoord 40000 .debug = .ok 32767 ∧
+    RejectsOrExact .outlineCoord 40000 .debug := by
+  refine ⟨?_, ?_, ?_⟩ <;> decide +kernel
+
+/-- F8 (fixed by d8817db / 944e88e): two points 40000 apart — the debug build panicked, the release build emitted
+    −25536; composite totals beyond 65535 — debug panicked, release wrapped. Now both are rejected in both profiles. -/
+theorem old_profiles_disagree_counterexample :
+    fieldPipelineOld .pointDelta 40000 .debug = .panic ∧ fieldPipelineOld .pointDelta 40000 .release = .ok (-25536) ∧
+    fieldPipelineOld .compositeTotal 80000 .debug = .panic ∧ fieldPipelineOld .compositeTotal 80000 .release = .ok 14464 ∧
+    fieldPipeline .pointDelta 40000 .debug = .err ∧ fieldPipeline .pointDelta 40000 .release = .err ∧
+    fieldPipeline .compositeTotal 80000 .debug = .err ∧ fieldPipeline .compositeTotal 80000 .release = .err := by
+  refine ⟨?_, ?_, ?_, ?_, ?_, ?_, ?_, ?_⟩ <;> decide +kernel
+
+/-- Before the fixes every one of these emitted a font with a different value. -/
+theorem old_unsafe_fields_witnesses :
+    ¬ RejectsOrExactOld .outlineCoord 40000 .debug ∧ ¬ RejectsOrExactOld .pointDelta 40000 .release ∧
+    ¬ RejectsOrExactOld .compOffset 40000 .debug ∧ ¬ RejectsOrExactOld .advance 65536 .debug ∧
+    ¬ RejectsOrExactOld .advance (-1) .debug ∧ ¬ RejectsOrExactOld .lsb 40000 .debug ∧
+    ¬ RejectsOrExactOld .kernValue 32768 .debug ∧ ¬ RejectsOrExactOld .anchorCoord (-32769) .debug ∧
+    ¬ RejectsOrExactOld .valueDelta 60000 .debug ∧ ¬ RejectsOrExactOld .gvarDelta 60000 .debug ∧
+    ¬ RejectsOrExactOld .hvarDelta 40000 .debug ∧ ¬ RejectsOrExactOld .countU16 65536 .debug ∧
+    ¬ RejectsOrExactOld .endPt 65537 .debug ∧ ¬ RejectsOrExactOld .compositeTotal 80000 .release := by
+  refine ⟨?_, ?_, ?_, ?_, ?_, ?_, ?_, ?_, ?_, ?_, ?_, ?_, ?_, ?_⟩ <;> decide +kernel
 
 end Fontc.C19
